@@ -224,7 +224,8 @@ def run(ctx):  # noqa: C901
     def fidcall(x, a="rho_1", b="rho_2"):
         return x[0] == "call" and str(x[1]).endswith("fidelity.fidelity") and {repr(v) for _, v in x[3]} == {repr(("n", a)), repr(("n", b))}
     def rnd(x):
-        return x[0] == "call" and x[1] == "numpy.round" and len(x[2]) == 2 and fidcall(x[2][0]) and x[2][1] == ("n", "decimals")
+        # (the normaliser spells the second argument of np.round as the keyword `decimals`, however the source wrote it)
+        return x[0] == "call" and x[1] == "numpy.round" and len(x[2]) == 1 and fidcall(x[2][0]) and dict(x[3]).get("decimals") == ("n", "decimals")
     def bd_ok(t):
         if not (t[0] == "call" and t[1] == "numpy.sqrt" and len(t[2]) == 1):
             return False
@@ -286,6 +287,8 @@ def run(ctx):  # noqa: C901
         conds = [(Normalizer(m, fid, inline=False)(tt), pol) for tt, pol in flw.conds(facts)]
         if sdp_branch(conds):
             ok = t[0] == "*" and ("c", Fraction(1, 2)) in t[1] and "solve" in repr(t)
+            if not ok and "solve" not in repr(t):
+                ok = None  # the programme is built and solved elsewhere (a helper): this rule does not follow it
             ctx.ob("R-SDP", fid, "SDP branch: value == optimum / 2", ok, "1/2 * problem.solve()" if ok else f"returns {show(t)[:60]}", rn)
 
     # ---- fidelity of separability (state) ---------------------------------------------------------------
